@@ -96,7 +96,7 @@ def import_fresh_bisturi(tree):
 class Outcome:
     """what one simulated run produced"""
     __slots__ = ("violation", "events", "stats", "case_sig", "sched_sig", "state_sigs", "nontrivial",
-                 "sample", "sim_time", "steps", "inconclusive")
+                 "sample", "sim_time", "steps", "inconclusive", "replay_scenario")
 
     def __init__(self):
         self.violation = None      # None or dict(oracle=..., actor=..., detail=...)
@@ -110,6 +110,7 @@ class Outcome:
         self.sim_time = 0.0
         self.steps = 0
         self.inconclusive = None
+        self.replay_scenario = None   # set when the run found a smaller scenario that reproduces its violation
 
     def event_digest(self):
         return hashlib.sha256("\n".join(self.events).encode()).hexdigest()[:16]
@@ -176,7 +177,7 @@ def _work(job):
         if len(res["samples"]) < 1 and out.nontrivial and out.sample is not None:
             res["samples"].append({"run": idx, "case": out.sample})
         if out.violation is not None:
-            res["violations"].append({"run": idx, "scenario": sc, "draws": ch.values(), "violation": out.violation,
+            res["violations"].append({"run": idx, "scenario": out.replay_scenario or sc, "draws": ch.values(), "violation": out.violation,
                                       "events": out.events[-200:], "event_digest": out.event_digest()})
     # local dedup of states (few distinct values, many repeats)
     res["states"] = array.array("Q", set(res["states"]))
